@@ -851,16 +851,33 @@ def replay(rec):
         print("expected : tree / None / SyntaxError within", PARSE_BUDGET, "parser calls and", WALL_S, "s")
         return 1 if kind in ("internal", "nonterm") else 0
     chain, pos = case["chain"], case["pos"]
+    _EXEC_LEFT[0] = 10**6
     res = check_pair(chain, pos, want_exec=True)
     print("bare     :", repr(res["bare"]))
     print("explicit :", repr(res["explicit"]))
     print("status   :", res["status"], res.get("detail", ""))
+    bad = res["status"] in FAIL
     if res["status"] == "trace-diff":
-        print("rcs      :", res["rcs"])
-        print("observed (bare)     :", res["trace_bare"])
-        print("expected (explicit) :", res["trace_explicit"])
+        print("settings : return codes", res["rcs"], " $XONSH_SUBPROC_RAISE_ERROR, $XONSH_SUBPROC_CMD_RAISE_ERROR =", res["flags"])
+        print("observed (bare run)     :", res["trace_bare"])
+        print("expected (explicit run) :", res["trace_explicit"])
+    elif res["status"] in ("bare-rejected", "explicit-rejected"):
+        print("observed :", "bare", "rejected" if res["status"] == "bare-rejected" else "accepted", "/ explicit", "accepted" if res["status"] == "bare-rejected" else "rejected")
+        print("expected : both accepted (same program) or both rejected")
     m = case.get("minimal")
     if m:
         r2 = check_pair(m["chain"], m["pos"])
         print("minimal  :", repr(m["bare"]), "vs", repr(m["explicit"]), "->", r2["status"], r2.get("detail", ""))
-    return 1 if res["status"] in FAIL else 0
+        if res["status"] == "boolop-mark":
+            d = confirm_boolop_mark(m["chain"], m["pos"])
+            bad = d is not None
+            if d:
+                print("settings : return codes", d[0], " flags", d[1])
+                print("observed (bare run of the minimal form)     :", d[2])
+                print("expected (explicit run of the minimal form) :", d[3])
+            else:
+                print("the two minimal programs run identically under every return-code assignment and flag setting: allowed")
+    if bad:
+        v = _violation_for(chain, pos, res)
+        print("key      :", v["key"] if v else None)
+    return 1 if bad else 0
